@@ -45,6 +45,21 @@ def run(ctx):
                     if width < 8: continue
                     rec(dict(op='back', P=W(P, nl), init=W(init, nl), data=B(d), pos=pos, width=width),
                         lambda d=d, pos=pos, init=init, final=final: C.crc_back_pos(d, pos, btab, final, C.crc(d, tab, init, final)), lambda r: W(r, nl)); ctx.mark(('back', width, P, pos))
+    for P, w1, w2 in ((0xA001, 16, 24), (0x8C, 8, 12), (0xEDB88320, 32, 40)):      # a table cache must not be keyed on the value alone
+        for width in (w1, w2, w1):
+            nl = (width + 15) // 16
+            try: tab = C.crc_table(Bits(P, width))
+            except Exception as ex: ctx.violation('crc.crc_table', 'raises:' + type(ex).__name__, dict(width=width), dict(P=hex(P))); continue
+            init = (1 << width) - 1
+            rec(dict(op='crc', P=W(P, nl), init=W(init, nl), final=W(0, nl), data=B(b'123456789'), width=width), lambda tab=tab, init=init: C.crc(b'123456789', tab, init, 0), lambda r, nl=nl: W(r, nl)); ctx.mark(('samevalue', P, width))
+    import zlib
+    for q in range(12 if big else 5):                                              # forged window containing zero bytes (also the most significant one)
+        d = rb(10 + q); pos = q % (len(d) - 3)
+        patch = bytes([rnd.randrange(256), rnd.randrange(256), [0, rnd.randrange(256)][q % 2], 0])
+        want = d[:pos] + patch + d[pos + 4:]; t = zlib.crc32(want)
+        rec(dict(op='fix', data=B(d), pos=pos, target=W(t, 2)), lambda d=d, t=t, pos=pos: C.crc32_fix_pos(d, pos, t), lambda r: B(r)); ctx.mark(('fixzero', q))
+        d2 = d[:-4]; want2 = d2 + patch[::-1]; t2 = zlib.crc32(want2 + b'')
+        rec(dict(op='fix', data=B(d2 + b'abcd'), pos=len(d2), target=W(zlib.crc32(d2 + patch), 2)), lambda d2=d2, patch=patch: C.crc32_fix(d2 + b'abcd', zlib.crc32(d2 + patch)), lambda r: B(r))
     for d in (rb(8), rb(21)):
         for pos in range(len(d)):
             rec(dict(op='back', P=W(0xEDB88320, 2), init=W(0xffffffff, 2), data=B(d), pos=pos, width=32), lambda d=d, pos=pos: C.crc32_back_pos(d, pos, C.crc32(d)), lambda r: W(r, 2))
